@@ -23,3 +23,6 @@ CHECKS = {
     "C19": props_str.c19,
     "C20": props_imp.c20,
 }
+
+# checks whose --replay re-runs the single recorded case; the others re-run the check at the recorded tier/seed and look for the recorded case
+NATIVE_REPLAY = {"C01", "C02", "C03", "C04", "C05", "C06", "C08", "C10", "C17"}
